@@ -200,10 +200,11 @@ deriving Repr, BEq, DecidableEq
 
 variable {σ : Type}
 
-/-- `Theme.from_file(config_file, inherit=…)` (theme.py:36-54). -/
-def fromFile (defaults : Dict σ) (parse : Parse σ) (lower interp : Bool) (text : List Char)
-    (inherit : Bool) : FRes (Theme σ) :=
-  match cfgItems lower interp text with
+/-- `Theme.from_file(config_file, inherit=…)` (theme.py:36-54) over an arbitrary reader `read`
+standing for `config.read_file(f); config.items("styles")`. -/
+def fromFileWith (read : List Char → Res (List (Name × List Char))) (defaults : Dict σ) (parse : Parse σ)
+    (text : List Char) (inherit : Bool) : FRes (Theme σ) :=
+  match read text with
   | .err e => .err (.cfg e)
   | .unmodelled => .unmodelled
   | .ok items =>
@@ -216,5 +217,10 @@ def fromFile (defaults : Dict σ) (parse : Parse σ) (lower interp : Bool) (text
       match Theme.new defaults parse (some (styles.map (fun p => (p.1, SV.style p.2)))) inherit with
       | .error e => .err (.parse e)
       | .ok t => .ok t
+
+/-- `Theme.from_file` with the modelled `configparser`. -/
+def fromFile (defaults : Dict σ) (parse : Parse σ) (lower interp : Bool) (text : List Char)
+    (inherit : Bool) : FRes (Theme σ) :=
+  fromFileWith (cfgItems lower interp) defaults parse text inherit
 
 end RichModel.Cfg
